@@ -284,8 +284,11 @@ def prior_returned_case(prior_kind, d, nq):
         ctx.require('prior_returned_when_all_constraints_hold', ctx.eq(A[i, j], M0s[i][j], tol=1e-12))
     ctx.require('stops_at_first_iteration', ctx.cond(est.n_iter_ == 1))
     tot = sum(wts[k] for k in range(nq))
+    # every given constraint keeps its (normalised) weight: the weights in use are the given ones divided by their total
+    ctx.require('one_weight_per_given_constraint', ctx.cond(np.shape(est.w_) == (nq,)))
     for k in range(nq):
-      ctx.require('weights_normalised_to_sum_one', ctx.eq(est.w_[k], wts[k] / tot, tol=1e-12))
+      if np.shape(est.w_) == (nq,):
+        ctx.require('weights_normalised_to_sum_one', ctx.eq(est.w_[k], wts[k] / tot, tol=1e-12))
       ctx.require('callers_weights_untouched', ctx.eq(w_in[k], wts[k], tol=0.0))
   return fn
 
